@@ -488,6 +488,103 @@ func runC01(c *core.Ctx) {
 	c.Rule("C01.finishhook", finishHookText, 10)
 	checkFinishHook(c)
 
+	c.Rule("C01.comparable", "nodes can be compared for identity: every concrete type that library code places into a datamodel.Node interface value (or an interface that includes it) is comparable in Go's sense - a pointer, or a type without slice, map or function parts - because library code compares nodes with == / != (the transforming walk asks whether the callback returned the node it was given, selectors and tests do alike) and Go panics at run time when the dynamic types of such a comparison are not comparable", 1)
+	{
+		nodeI := p.Iface("datamodel", "Node")
+		nmi := 0
+		for _, fn := range p.ModFns {
+			pk := core.FuncPkg(fn)
+			if pk == nil || !libraryPkg(core.RelPkg(pk.Path())) || len(fn.Blocks) == 0 || nodeI == nil {
+				continue
+			}
+			nbad := 0
+			core.Instrs(fn, func(in ssa.Instruction) {
+				mi, ok := in.(*ssa.MakeInterface)
+				if !ok {
+					return
+				}
+				it, ok := mi.Type().Underlying().(*types.Interface)
+				if !ok || !types.Implements(mi.Type(), nodeI) && !types.AssignableTo(mi.Type(), types.NewInterfaceType(nil, nil)) {
+					return
+				}
+				_ = it
+				if !types.Implements(mi.Type(), nodeI) {
+					return
+				}
+				nmi++
+				if !types.Comparable(mi.X.Type()) {
+					nbad++
+					c.Fail(fmt.Sprintf("%s#node-of-uncomparable-type%d", core.FuncKey(fn), nbad), p.Pos(mi.Pos()), "a value of type "+core.TypeString(mi.X.Type())+", which is not comparable, is made into a datamodel.Node: comparing two such nodes with == or != panics ('comparing uncomparable type') - the transforming walk does so with every node the callback returns")
+				}
+			})
+		}
+		if nmi > 0 {
+			c.OK("library#node-values-comparable", "-", fmt.Sprintf("%d conversions of concrete values to datamodel.Node examined", nmi))
+		} else {
+			c.Undecided("library#node-conversions", "-", "no conversion to datamodel.Node found")
+		}
+	}
+
+	c.Rule("C01.copyabsent", "sibling agreement between the generic copies of a map: every function of the library that walks a node's MapIterator and assembles the entries into a map assembler (datamodel.Copy and the AssignNode copy paths of basicnode and of generated code) asks the value IsAbsent() and reaches the assembling of that entry only over the not-absent edge - an unset optional field of a typed struct is not an entry, and a copy that keeps it disagrees with datamodel.Copy and with equality", 3)
+	{
+		ncp := 0
+		for _, fn := range p.ModFns {
+			pk := core.FuncPkg(fn)
+			if pk == nil || len(fn.Blocks) == 0 || fn.Synthetic != "" {
+				continue
+			}
+			rel := core.RelPkg(pk.Path())
+			if rel != "datamodel" && rel != "node/basicnode" && rel != "node/gendemo" {
+				continue
+			}
+			nloop := 0
+			for _, ci := range core.Calls(fn) {
+				nx := core.CallValue(ci)
+				if nx == nil || !nx.Call.IsInvoke() || nx.Call.Method.Name() != "Next" {
+					continue
+				}
+				if nt := namedOfType(nx.Call.Value.Type()); nt == nil || nt.Obj().Name() != "MapIterator" {
+					continue
+				}
+				// the value of this entry is handed to an assembler (AssignNode / Copy) in this function
+				var uses []ssa.CallInstruction
+				for _, cj := range core.Calls(fn) {
+					o := core.CalleeObj(cj)
+					if o == nil || (o.Name() != "AssignNode" && o.Name() != "Copy") {
+						continue
+					}
+					for _, a := range core.Args(cj) {
+						if extractOf(a, nx, 1) {
+							uses = append(uses, cj)
+						}
+					}
+				}
+				if len(uses) == 0 {
+					continue
+				}
+				ncp++
+				nloop++
+				// edges on which the value was found absent
+				absent := core.BoolEdgesWhere(fn, func(v ssa.Value) bool {
+					cl, ok := core.Strip(v).(*ssa.Call)
+					return ok && cl.Call.IsInvoke() && cl.Call.Method.Name() == "IsAbsent" && extractOf(cl.Call.Value, nx, 1)
+				}, false)
+				bad := len(absent) == 0
+				var wp []string
+				for _, u := range uses {
+					if path, reached := core.Reach(fn, nx, isTarget(u), absent, func(in ssa.Instruction) bool { return in == ssa.Instruction(nx) }); reached {
+						bad = true
+						wp = p.Witness(path)
+					}
+				}
+				c.Check(!bad, fmt.Sprintf("%s#absent-skipped%d", core.FuncKey(fn), nloop), p.Pos(nx.Pos()), "an absent value is not copied as an entry", "the entry's value is handed to the assembler without IsAbsent() having been found false: the unset optional field of a typed struct is copied as an entry holding the Absent pseudo-node (datamodel.Copy of the same node leaves it out, and the two copies are not equal)", wp...)
+			}
+		}
+		if ncp == 0 {
+			c.Undecided("library#map-copy-loops", "-", "no map copy loop found")
+		}
+	}
+
 	c.Rule("C01.intcompare", "deep equality compares integers in the domain they were read in: in datamodel.DeepEqual (helpers expanded) no operand of an integer ==/!= derives from a conversion between a signed and an unsigned integer type applied to what AsInt / AsUint returned (after such a conversion -1 and 2^64-1, or MinInt64 and 2^63, compare equal although the abstract values differ)", 1)
 	if fn := p.Func("datamodel", "", "DeepEqual"); fn != nil {
 		isIntT := func(t types.Type) (signed, ok bool) {
@@ -541,7 +638,7 @@ func runC01(c *core.Ctx) {
 	}
 }
 
-const beginCopyText = "sibling agreement between the two ways a fresh recursive assembler is started: for every type that is both a NodeAssembler and a MapAssembler/ListAssembler, whatever storage its BeginMap/BeginList sets up before entries can be added (a map made with make, a node allocated - on every returning path of the Begin method) is also set up on every path of its AssignNode that goes on to add entries through the assembler's own AssembleKey/AssembleValue/AssembleEntry - by calling that Begin method or making the same stores - so that copying a node of another implementation in does not write into storage that was never allocated"
+const beginCopyText = "sibling agreement between the two ways a fresh recursive assembler is started: for every type that is both a NodeAssembler and a MapAssembler/ListAssembler, whatever storage its BeginMap/BeginList sets up before entries can be added (a map made with make, a node allocated where the parent has not provided one) is also set up on every path of its AssignNode that goes on to add entries through the assembler's own AssembleKey/AssembleValue/AssembleEntry - by calling that Begin method or making the same stores - so that copying a node of another implementation in does not write into storage that was never allocated"
 
 // checkBeginCopy decides C01.begincopy.
 func checkBeginCopy(c *core.Ctx) {
@@ -577,11 +674,8 @@ func checkBeginCopy(c *core.Ctx) {
 			if kind == "" {
 				return
 			}
-			// only what Begin does on every path that returns: a store under a condition (allocate the node if the
-			// parent has not provided one) says nothing about an assembler for which the condition is false
-			if _, skipped := core.Reach(fn, nil, func(x ssa.Instruction) bool { _, isRet := x.(*ssa.Return); return isRet }, nil, func(x ssa.Instruction) bool { return x == ssa.Instruction(st) }); skipped {
-				return
-			}
+			// (a store under a condition - allocate the node if the parent has not provided one - counts as well: the
+			// copy path runs on the same assembler, for which the condition may hold)
 			out = append(out, fieldSetup{kind, id})
 		})
 		return out
@@ -603,7 +697,7 @@ func checkBeginCopy(c *core.Ctx) {
 			need := setupsOf(begin)
 			key := core.TypeString(im.Named) + "#AssignNode-" + rec.begin
 			if len(need) == 0 {
-				c.Info(key, p.Pos(assign.Pos()), rec.begin+" sets up no storage unconditionally (no made map, no allocation on every path)")
+				c.Info(key, p.Pos(assign.Pos()), rec.begin+" sets up no storage that adding entries depends on")
 				continue
 			}
 			recv := assign.Params[0]
